@@ -75,8 +75,15 @@ def main():
         out = os.path.join(V, 'seeded', a.name)
         os.makedirs(out, exist_ok=True)
         for src, dst in ((a.patch, 'patch.diff'), (a.demo, 'demo.py')):
-            if os.path.realpath(src) != os.path.realpath(os.path.join(out, dst)):
+            if os.path.dirname(os.path.realpath(src)) != os.path.realpath(out):      # re-evaluation of a recorded seed keeps its files
                 shutil.copy(src, os.path.join(out, dst))
+        try:
+            oldm = json.load(open(os.path.join(out, 'meta.json')))
+            for k in ('why', 'needs', 'summary'):
+                if not meta.get(k) and oldm.get(k):
+                    meta[k] = oldm[k]
+        except Exception:
+            pass
         json.dump(meta, open(os.path.join(out, 'meta.json'), 'w'), indent=1, default=str)
         print(json.dumps({k: meta[k] for k in ('name', 'demo_clean_exit', 'demo_patched_exit', 'detected')}, indent=0))
         for p, rr in results.items():
